@@ -116,3 +116,24 @@ From PV Require Import C12.IntrTable C12.GenTables C12.IntrOblig.
 Theorem C13_inquiry_flags_sound : forallb flag_ok gen_intrinsics = true.
 Proof. exact inquiry_flags_sound. Qed.
 Print Assumptions C13_inquiry_flags_sound.
+
+(* ---- regions containing DO WHILE directly (fuelled semantics C12/While.v), any clause lists, any junk *)
+From PV Require Import C12.While C13.WhileAcc.
+Theorem C13_acc_sound_gen_while : forall isarr f ws st st' tr c cin cout cpy,
+  wexec f ws st = Ok st' tr c ->
+  acc_run_ok_gen isarr cin cout cpy st tr = true ->
+  forall junk, exists st'',
+    wexec_dev f isarr (cl_from cin cout cpy) junk ws st = Ok st'' tr c /\
+    bnd st'' = bnd st' /\ forall l, val st'' l = val st' l.
+Proof. exact acc_sound_gen_while. Qed.
+Print Assumptions C13_acc_sound_gen_while.
+
+Example C13_while_acc_nonvacuous :
+  let c := EBin And (EBin Gt (EIdx 0%nat [ELit 1]) (ELit 1)) (EBin Lt (EVar 1%nat) (ELit 3)) in
+  let body := [SAssign 0%nat [ELit 1] (EBin Sub (EIdx 0%nat [ELit 1]) (ELit 1)); SAssign 1%nat [] (EBin Add (EVar 1%nat) (ELit 1))] in
+  let isarr := fun x => mem x [0%nat] in
+  let st := store_of [((0%nat, [1]), 3)] [(0%nat, [(1, 2)])] in
+  exists st' tr, wexec 10 [WWhile c body] st = Ok st' tr CNormal /\
+    acc_run_ok_gen isarr [] [] [0%nat] st tr = true /\ acc_run_ok_gen isarr [] [0%nat] [] st tr = false.
+Proof. exact while_acc_nonvacuous. Qed.
+Print Assumptions C13_while_acc_nonvacuous.
